@@ -256,12 +256,8 @@ func (s *Storage) commit(context interpreter.ValueTransferContext, commitContrac
 		s.commitContractUpdates(context)
 	}
 
-	err := s.AccountStorage.commit()
-	if err != nil {
-		return err
-	}
-
-	// Commit the underlying slab storage's writes
+	// Meter the commit before the first register is written:
+	// if a metering limit is hit, the commit fails without having written anything.
 
 	slabStorage := s.PersistentSlabStorage
 
@@ -283,6 +279,15 @@ func (s *Storage) commit(context interpreter.ValueTransferContext, commitContrac
 
 	deltas := slabStorage.DeltasWithoutTempAddresses()
 	common.UseMemory(context, common.NewAtreeEncodedSlabMemoryUsage(deltas))
+
+	// Write the account storage map registers
+
+	err := s.AccountStorage.commit()
+	if err != nil {
+		return err
+	}
+
+	// Commit the underlying slab storage's writes
 
 	// TODO: report encoding metric for all encoded slabs
 	workerCount := goRuntime.NumCPU()
